@@ -188,7 +188,12 @@ func c07Release(p *chk.Prog, r *chk.Report) {
 				}
 				if rg.Dominated(s, equal(true)) {
 					h := rf.ObjOf(s.Node.(*ast.AssignStmt).Lhs[0])
-					found = append(found, chk.GBool(true, func(e ast.Expr) bool { return rf.IsObj(h)(e) || rf.IsObj(h)(rf.Resolve(e)) }))
+					isH := func(e ast.Expr) bool { return rf.IsObj(h)(e) || rf.IsObj(h)(rf.Resolve(e)) }
+					// the flag speaks about this previous address only if every search starts with it cleared
+					if !rg.LoopEntryDominated(inner[0], chk.GBool(false, isH)) {
+						okk = false
+					}
+					found = append(found, chk.GBool(true, isH))
 				}
 			}
 			nTrue := 0
